@@ -10,13 +10,21 @@ package hessian
 //@   loop 1 invariant [C16:raw-walk] true
 //@   ensures [C16:raw-not-ptr] R.kind(result) != K.Ptr
 
+//@ func fetchType
+//@   requires typMap != nil && seen != nil
+//@   assigns mapof(typMap), mapof(seen)
+//@   measure [C16:fetchtype-terminates] grows mapsize(typMap) + mapsize(seen) then shrinks T.height(typ)
+//@   let ut = R.unpackPtrType(typ)
+//@   loop 1 invariant [C16:fetch-fields] 0 <= i && mapsize(typMap) > old(mapsize(typMap)) && mapsize(seen) >= old(mapsize(seen)) && maphas(typMap, R.tName(typ)) && typ == R.unpackPtrType(entry(typ))
+//@   loop 1 invariant [C16:fetch-monotone-loop] forall k string :: old(maphas(typMap, k)) ==> maphas(typMap, k)
+//@   ensures [C16:fetch-grows] mapsize(typMap) >= old(mapsize(typMap)) && mapsize(seen) >= old(mapsize(seen))
+//@   ensures [C16:fetch-monotone] forall k string :: old(maphas(typMap, k)) ==> maphas(typMap, k)
+//@   ensures [C16:fetch-registers-struct] R.tKind(ut) == K.Struct ==> maphas(typMap, R.tName(ut))
+
 //@ func FetchType
 //@   requires typMap != nil
 //@   assigns mapof(typMap)
-//@   measure [C16:fetchtype-terminates] grows mapsize(typMap) then shrinks T.height(typ)
 //@   let ut = R.unpackPtrType(typ)
-//@   loop 1 invariant [C16:fetch-fields] 0 <= i && mapsize(typMap) > old(mapsize(typMap)) && maphas(typMap, R.tName(typ)) && typ == R.unpackPtrType(entry(typ))
-//@   loop 1 invariant [C16:fetch-monotone-loop] forall k string :: old(maphas(typMap, k)) ==> maphas(typMap, k)
 //@   ensures [C16:fetch-grows] mapsize(typMap) >= old(mapsize(typMap))
 //@   ensures [C16:fetch-monotone] forall k string :: old(maphas(typMap, k)) ==> maphas(typMap, k)
 //@   ensures [C16:fetch-registers-struct] R.tKind(ut) == K.Struct ==> maphas(typMap, R.tName(ut))
@@ -39,7 +47,7 @@ package hessian
 //@   loop 3 invariant [C16:extract-entries] rangeindex + 1 <= R.mapLen(v) && @nrec == old(@nrec) + 2 * (rangeindex + 1) && @dyntrue == old(@dyntrue) + 1 && @dyncalls == old(@dyncalls) + 1
 //@   loop 4 invariant [C16:extract-fields] 0 <= i && i <= R.numField(v) && @nrec == old(@nrec) + i && @dyntrue == old(@dyntrue) + 1 && @dyncalls == old(@dyncalls) + 1
 //@   proves  [C16:extract-one-extractor-call] @dyncalls <= old(@dyncalls) + 1
-//@   proves  [C16:extractor-reached-unless-nil-interface] @dyncalls == old(@dyncalls) ==> R.kind(now(v)) == K.Interface
+//@   proves  [C16:extractor-reached-unless-nil-interface] @dyncalls == old(@dyncalls) ==> R.kind(now(v)) == K.Interface || R.tElem(R.typeOf(now(v))) == R.typeOf(now(v))
 //@   proves  [C16:closure-slice-nonempty] @dyntrue == old(@dyntrue) + 1 && (R.kind(now(v)) == K.Array || R.kind(now(v)) == K.Slice) && R.len(now(v)) != 0 ==> @nrec == old(@nrec) + R.len(now(v))
 //@   proves  [C16:closure-slice-empty]    @dyntrue == old(@dyntrue) + 1 && (R.kind(now(v)) == K.Array || R.kind(now(v)) == K.Slice) && R.len(now(v)) == 0 ==> @nrec == old(@nrec) + 1
 //@   proves  [C16:closure-map-empty]      @dyntrue == old(@dyntrue) + 1 && R.kind(now(v)) == K.Map && R.len(now(v)) == 0 ==> @nrec == old(@nrec) + 2
